@@ -53,7 +53,8 @@ def gen_case(rng):
         pool = [f for f in pool if f[0] in ("T", "u8", "U", "&'l T", "&'l str", "::core::marker::PhantomData<T>", "[u8; N]", "(T, U)", "[T; N]", D + "Yes",
                                             "::core::option::Option<T>", D + "Fwd<T>")]
     if "Default" in traits:
-        pool = [f for f in pool if f[0] not in ("&'l T", "[T; N]", "[u8; N]")]
+        # `[u8; N]` / `[T; N]` stay in: they are Default only for some N, so the generated bound is what makes the impl type-check
+        pool = [f for f in pool if f[0] not in ("&'l T",)]
     if not pool:
         pool = [FTY[7]]
     nv = 1 if kind == "struct" else rng.choice([0, 1, 1, 2, 3])
